@@ -1086,6 +1086,7 @@ func genC09(b *builder, n int) {
 	// boundaries, keyword prefixes, sizes around bufio's buffer, one Decoder driven
 	// by a script of calls, decoding targets, results that must not share memory
 	genWideObjects(b, n/100)
+	genBigFiles(b)
 	genNumLex(b, n < 20000)
 	genWords(b)
 	genEscapes(b, false)
